@@ -1,6 +1,7 @@
 package main
 
 import (
+	"sort"
 	sdkmath "cosmossdk.io/math"
 	sdk "github.com/cosmos/cosmos-sdk/types"
 	vestingtypes "github.com/cosmos/cosmos-sdk/x/auth/vesting/types"
@@ -63,6 +64,27 @@ func (a *TraderAgent) Step(s *Sim) {
 			s.Stats.Probe("swap_recipient_differs")
 		} else if r.Float64() < 0.2 {
 			rcpt = ""
+		} else if r.Float64() < 0.04 {
+			// a protocol address as recipient: module accounts (several are created lazily, on their
+			// module's first use) - the bank refuses plain sends to them, a keeper's payout may not
+			var ms []string
+			for a := range s.N0.App.ModuleAccountAddrs() {
+				ms = append(ms, a)
+			}
+			sort.Strings(ms)
+			rcpt = ms[r.IntN(len(ms))]
+			// preferably one that has no account yet: a payout would create a plain account in its place
+			var fresh []string
+			for _, a := range ms {
+				if acc, err := sdk.AccAddressFromBech32(a); err == nil && s.N0.App.AccountKeeper.GetAccount(s.Ctx(), acc) == nil {
+					fresh = append(fresh, a)
+				}
+			}
+			if len(fresh) > 0 && r.IntN(4) != 0 {
+				rcpt = fresh[r.IntN(len(fresh))]
+				s.Stats.Probe("swap_recipient_is_module_address_without_account_submitted")
+			}
+			s.Stats.Probe("swap_recipient_is_module_account_submitted")
 		}
 		p := pick(r, pools)
 		// hot pool: several traders hit the same pool in the same block, both directions
